@@ -2,6 +2,7 @@ import torch.nn as nn
 import pywt
 import pytorch_wavelets.dwt.lowlevel as lowlevel
 import torch
+from pytorch_wavelets._verif import point as _vp
 
 
 class DWTForward(nn.Module):
@@ -67,6 +68,7 @@ class DWTForward(nn.Module):
         # Do a multilevel transform
         for j in range(self.J):
             # Do 1 level of the transform
+            _vp('DWTForward.level', level=j+1, H=ll.shape[-2], W=ll.shape[-1], mode=self.mode)
             ll, high = lowlevel.AFB2D.apply(
                 ll, self.h0_row, self.h1_row, self.h0_col, self.h1_col, mode)
             yh.append(high)
@@ -140,6 +142,7 @@ class DWTInverse(nn.Module):
                                 dtype=ll.dtype)
 
             # 'Unpad' added dimensions
+            _vp('DWTInverse.level', lo=tuple(ll.shape[-2:]), hi=tuple(h.shape[-2:]), mode=self.mode)
             if ll.shape[-2] > h.shape[-2]:
                 ll = ll[...,:h.shape[-2],:]
             if ll.shape[-1] > h.shape[-1]:
@@ -206,6 +209,7 @@ class SWTForward(nn.Module):
         filts = (self.h0_col, self.h1_col, self.h0_row, self.h1_row)
         for j in range(self.J):
             # Do 1 level of the transform
+            _vp('SWTForward.level', level=j+1, dilation=2**j, mode=self.mode)
             y = lowlevel.afb2d_atrous(ll, filts, self.mode, 2**j)
             s = y.shape
             y = y.reshape(s[0], -1, 4, s[-2], s[-1])
